@@ -51,7 +51,7 @@ pub fn explore(opts: &Opts) -> Explored {
         }
     }
     // conv layers: geometry of C06 at small sizes, strides up to 3 (also larger than the filter)
-    let batches = vec![vec![], vec![1], vec![2]];
+    let batches = vec![vec![], vec![1], vec![2], vec![2, 3], vec![2, 2]];
     let convs = conv_configs(if thorough { 5 } else { 4 }, 2, 3, &[1, 2], &[1, 2], &batches);
     for c in &convs {
         for act in [Act::None, Act::Relu, Act::Sigmoid] {
